@@ -423,6 +423,38 @@ func cmdCheck(args []string) int {
 	var violLines []string
 	if len(files) > 0 {
 		outc, err := runNative(reg, files, ld.PPkg)
+		// native runs involve real goroutines and timing heuristics: anything that
+		// does not come out as predicted is run again (twice at most) before it counts
+		for retry := 0; err == nil && retry < 2; retry++ {
+			var again []string
+			for i, f := range vfiles {
+				if !reproduces(violRecs[i], outc[f]) {
+					again = append(again, f)
+				}
+			}
+			for i, f := range cfiles {
+				o := outc[f]
+				ok := o.Kind == "OK"
+				if ok {
+					var got []sx.ObsRec
+					_ = json.Unmarshal([]byte(o.Detail), &got)
+					ok = sameObs(got, concRecs[i].Observed)
+				}
+				if !ok {
+					again = append(again, f)
+				}
+			}
+			if len(again) == 0 {
+				break
+			}
+			out2, err2 := runNative(reg, again, ld.PPkg)
+			if err2 != nil {
+				break
+			}
+			for f, o := range out2 {
+				outc[f] = o
+			}
+		}
 		if err != nil {
 			inconclusive = append(inconclusive, "native replay could not run: "+err.Error())
 		} else {
